@@ -65,7 +65,7 @@ func evStorageInvoke(method string) InstrPred {
 
 func evCall(names ...string) InstrPred {
 	return func(in ssa.Instruction) bool {
-		if _, isDefer := in.(*ssa.Defer); isDefer {
+		if _, isDefer := in.(*ssa.Defer); isDefer && !deferAsEvent {
 			return false
 		}
 		return isCallTo(in, names...)
